@@ -171,6 +171,11 @@ STMT_OPS = ['put_line_comment', 'put_docstr']
 PAR_OPS = ['par', 'unpar']
 
 
+class StepNotApplicable(Exception):
+    pass
+
+
+
 def candidates(root_ast):
     out = []
     anc = {id(root_ast): []}
@@ -235,7 +240,10 @@ def gen_step(rnd, root, donors, weights=None, norm=True, ops=None, with_par=Fals
         pool += ['remove', 'put_none', 'cut']
     if kind == 'stmt':
         pool += STMT_OPS
-    if with_par and kind in ('expr', 'expr1', 'dictval', 'target', 'pattern'):
+    if with_par == 'redundant':
+        if kind in ('expr', 'expr1', 'dictval', 'target') and getattr(node.f.pars(), 'n', 0):
+            pool += ['unpar_redundant'] * 12   # only offered where there are grouping parentheses at all
+    elif with_par and kind in ('expr', 'expr1', 'dictval', 'target', 'pattern'):
         pool += PAR_OPS
     if ops:
         pool = [o for o in pool if o in ops] or pool
@@ -424,6 +432,30 @@ def apply_step(root, step, FST):
     elif op == 'par':
         t.par(True)
     elif op == 'unpar':
+        t.unpar()
+    elif op == 'unpar_redundant':
+        # unpar() is documented as doing no parsability validation; it is judged only on parentheses that CPython itself
+        # finds redundant: blanking them (same length, newlines kept) must leave the parsed structure unchanged
+        pl = t.pars()
+        if not getattr(pl, 'n', 0):
+            raise StepNotApplicable('no grouping parentheses')
+        ln, col, end_ln, end_col = t.loc
+        lines = root.src.split('\n')
+
+        def blank(l0, c0, l1, c1):
+            for l in range(l0, l1 + 1):
+                a = c0 if l == l0 else 0
+                b = c1 if l == l1 else len(lines[l])
+                lines[l] = lines[l][:a] + ''.join(' ' if ch in '()' else ch for ch in lines[l][a:b]) + lines[l][b:]
+        seg_open = '\n'.join(lines[pl.ln:ln + 1])
+        blank(end_ln, end_col, pl.end_ln, pl.end_col)
+        blank(pl.ln, pl.col, ln, col)
+        try:
+            same = ast.dump(ast.parse('\n'.join(lines))) == ast.dump(ast.parse(root.src))
+        except SyntaxError:
+            same = False
+        if not same or '#' in seg_open:
+            raise StepNotApplicable('parentheses are not redundant per CPython (or hold a comment)')
         t.unpar()
     else:
         raise AssertionError('unknown op ' + op)
